@@ -365,6 +365,223 @@ def gen_adversarial(rng):
     return out
 
 
+# ------------------------------------------------------------------ edit sequences (strengthening round 2)
+# A sequence = successive states of ONE project folder.  Every state is compiled in turn in ONE process (jmc's interactive shell /
+# autocompile / an API user rebuilding), the folder being edited in place in between; every state must compile to the flattened
+# single file of the project AS IT IS NOW, and to what the model predicts for it.
+
+def next_id(files) -> int:
+    ids = [it[1] for its in files.values() for it in its if it[0] in ("load", "def")]
+    return max(ids + [999]) + 1
+
+
+def wild_dirs_of(pr: Project) -> list[str]:
+    """root-relative directories named by the wildcard imports of the project (existing or not)"""
+    out = []
+    for f, its in pr.files.items():
+        for it in its:
+            if it[0] == "wild":
+                d = spec_dir(tup(f), it[1])
+                if d[:1] == (ROOTC,) and len(d) > 1:
+                    out.append("/".join(d[1:]))
+    return sorted(set(out))
+
+
+def fresh_items(rng, n0: int, k: int):
+    out = []
+    for j in range(k):
+        out.append(("load", n0 + j, rng.choice(["if", "say", "var"])) if rng.random() < .5 else ("def", n0 + j, rng.choice(["func", "plain", "class"])))
+    return out
+
+
+def edit_project(rng, pr: Project, kind: str) -> Project | None:
+    files = {k: list(v) for k, v in pr.files.items()}
+    dirs = list(pr.dirs)
+    main = "/".join(pr.main_id()[1:])
+    others = [f for f in files if f != main]
+    wdirs = wild_dirs_of(pr)
+    n0 = next_id(files)
+    if n0 > 1990:
+        return None
+    covered = [f for f in others if any(f.startswith(d + "/") for d in wdirs)]
+    if kind == "add":
+        base = rng.choice(wdirs) if wdirs and rng.random() < .8 else rng.choice(sorted({posixpath.dirname(f) for f in files}))
+        r = rng.random()
+        d = base if r < .6 else base + "/" + rng.choice(["sub", "newsub", "deep/er"])
+        name = rng.choice(["n", "added", "z.x", "a"]) + str(n0) + ".jmc"
+        files[f"{d}/{name}"] = fresh_items(rng, n0, rng.randint(1, 3))
+    elif kind == "remove":
+        if not others:
+            return None
+        f = rng.choice(covered) if covered and rng.random() < .8 else rng.choice(others)
+        del files[f]
+    elif kind == "edit":
+        f = rng.choice(covered) if covered and rng.random() < .6 else rng.choice(sorted(files))
+        its = files[f]
+        r = rng.random()
+        if r < .5 or not its:
+            its.insert(rng.randint(0, len(its)), fresh_items(rng, n0, 1)[0])
+        elif r < .75:
+            its.pop(rng.randrange(len(its)))
+        else:
+            k = rng.randrange(len(its))
+            if its[k][0] in ("load", "def"):
+                its[k] = fresh_items(rng, n0, 1)[0]
+            else:
+                its.insert(k, fresh_items(rng, n0, 1)[0])
+    elif kind == "move":
+        if not others:
+            return None
+        f = rng.choice(covered) if covered and rng.random() < .6 else rng.choice(others)
+        cand = sorted(set(wdirs) | {posixpath.dirname(x) for x in files} | {d + "/moved" for d in wdirs} | {P + "/elsewhere"})
+        d = rng.choice(cand)
+        name = posixpath.basename(f) if rng.random() < .6 else "mv" + str(n0) + ".jmc"
+        g = f"{d}/{name}"
+        if g in files:
+            return None
+        files[g] = files.pop(f)
+    elif kind == "import":
+        holders = [f for f, its in files.items() if any(i[0] in ("import", "wild") for i in its)]
+        r = rng.random()
+        if holders and r < .7:
+            f = rng.choice(holders)
+            its = files[f]
+            k = rng.choice([k for k, i in enumerate(its) if i[0] in ("import", "wild")])
+            it = its[k]
+            r2 = rng.random()
+            if r2 < .25:
+                its.pop(k)                                          # the import line is deleted
+            elif it[0] == "import" and r2 < .7:                      # explicit import -> wildcard over the target's folder
+                t = spec_target(tup(f), it[1])
+                if t[:1] != (ROOTC,) or len(t) < 3:
+                    return None
+                its[k] = ("wild", wild_spelling(rng, f, "/".join(t[1:-1])))
+            elif it[0] == "wild" and r2 < .7:                        # wildcard -> explicit import of one file below it / another folder
+                d = "/".join(spec_dir(tup(f), it[1])[1:])
+                below = [x for x in files if x.startswith(d + "/")]
+                if below and rng.random() < .6:
+                    its[k] = ("import", import_spelling(rng, f, rng.choice(below)))
+                else:
+                    its[k] = ("wild", wild_spelling(rng, f, rng.choice(sorted({posixpath.dirname(x) for x in files} | set(dirs)))))
+            else:
+                its.insert(rng.randint(0, len(its)), its.pop(k))     # the import line is moved
+        else:                                                        # a new import line
+            f = rng.choice(sorted(files))
+            its = files[f]
+            if others and rng.random() < .5:
+                its.insert(rng.randint(0, len(its)), ("import", import_spelling(rng, f, rng.choice(sorted(files)))))
+            else:
+                its.insert(rng.randint(0, len(its)), ("wild", wild_spelling(rng, f, rng.choice(sorted({posixpath.dirname(x) for x in files} | set(dirs))))))
+    elif kind == "rmdir":                                            # every file below a wildcard's folder goes away (the folder too)
+        if not wdirs:
+            return None
+        d = rng.choice(wdirs)
+        gone = [f for f in others if f.startswith(d + "/")]
+        if not gone:
+            return None
+        for f in gone:
+            del files[f]
+        dirs = [x for x in dirs if not (x == d or x.startswith(d + "/"))]
+    else:
+        raise ValueError(kind)
+    return Project(files, dirs, pr.cwd, pr.target, pr.tag)
+
+
+EDIT_KINDS = ["add", "add", "remove", "edit", "move", "import", "rmdir"]
+
+
+def seq_bases(rng, count):
+    """projects that certainly use wildcard imports (main and / or an imported file), several files below the covered folders"""
+    out = []
+    m = f"{P}/main.jmc"
+    for ci in range(count):
+        n = 1000
+        files = {m: []}
+        libs = rng.sample(["lib", "sub", "lib/inner", "sub/deep", "pkg"], rng.randint(1, 3))
+        for d in libs:
+            for name in rng.sample(["a.jmc", "b.jmc", "c.jmc", "x.y.jmc", "main.jmc"], rng.randint(1, 3)):
+                files[f"{P}/{d}/{name}"] = fresh_items(rng, n, rng.randint(1, 2))
+                n += 2
+        files[m] = fresh_items(rng, n, rng.randint(1, 3))
+        n += 3
+        holder_pool = [m] + [f for f in files if f != m and rng.random() < .3]
+        for d in libs:
+            if rng.random() < .85:
+                f = rng.choice(holder_pool)
+                its = files[f]
+                its.insert(rng.randint(0, len(its)), ("wild", wild_spelling(rng, f, f"{P}/{d}")))
+        if not any(i[0] == "wild" for its in files.values() for i in its):
+            files[m].insert(0, ("wild", wild_spelling(rng, m, f"{P}/{libs[0]}")))
+        for f in list(files):
+            if f != m and rng.random() < .3:
+                its = files[m]
+                its.insert(rng.randint(0, len(its)), ("import", import_spelling(rng, m, f)))
+        if rng.random() < .3:
+            files[m].insert(rng.randint(0, len(files[m])), ("wild", "later/*"))      # a folder that does not exist (yet)
+        cwd, target = rng.choice(MAIN_SPELLINGS[:4]) if rng.random() < .8 else rng.choice(MAIN_SPELLINGS)
+        out.append(Project(files, ["w/other", f"{P}/sub"], cwd, target, f"seqbase{ci}"))
+    return out
+
+
+def gen_sequences(rng, tier):
+    """[(tag, [Project, ...])]: hand-made sequences for each kind of edit + random ones of 2-4 further steps"""
+    seqs = []
+    m = f"{P}/main.jmc"
+    L = lambda n, k="if": ("load", n, k)   # noqa
+    D = lambda n, k="func": ("def", n, k)  # noqa
+    lib = {f"{P}/lib/a.jmc": [L(1001), D(1002)], f"{P}/lib/b.jmc": [D(1003, "class"), L(1004, "say")]}
+    for cwd, target in MAIN_SPELLINGS[:4]:
+        base = Project({m: [L(1000), ("wild", "lib/*"), D(1005)], **lib}, ["w/other", f"{P}/sub"], cwd, target, "seq-hand")
+        def st(files, dirs=None):
+            return Project(files, base.dirs if dirs is None else dirs, cwd, target, "seq-hand")
+        added = dict(base.files, **{f"{P}/lib/c.jmc": [L(1006), D(1007)]})
+        added_sub = dict(added, **{f"{P}/lib/new/deep/d.jmc": [D(1008, "plain"), L(1009, "var")]})
+        seqs.append(("add-file", [base, st(added), st(added_sub)]))
+        seqs.append(("remove-file", [st(added_sub), st(added), base, st({k: v for k, v in base.files.items() if not k.endswith("/a.jmc")})]))
+        seqs.append(("rename-file", [base, st({(k.replace("/a.jmc", "/renamed.jmc")): v for k, v in base.files.items()})]))
+        seqs.append(("move-out-and-in", [base, st({(k.replace("/lib/a.jmc", "/sub/a.jmc")): v for k, v in base.files.items()}),
+                                         st({(k.replace("/lib/a.jmc", "/lib/deeper/a.jmc")): v for k, v in base.files.items()})]))
+        seqs.append(("edit-file", [base, st(dict(base.files, **{f"{P}/lib/a.jmc": [L(1001), D(1010), D(1002)]})),
+                                   st(dict(base.files, **{f"{P}/lib/a.jmc": [D(1002)], m: [("wild", "lib/*"), L(1000), D(1005), L(1011, "say")]}))]))
+        seqs.append(("import-line", [base, st(dict(base.files, **{m: [L(1000), ("import", "lib/b"), D(1005)]})),
+                                     st(dict(base.files, **{m: [L(1000), ("import", "lib/b"), D(1005), ("wild", "./lib/*")]})),
+                                     st(dict(base.files, **{m: [L(1000), D(1005)]}))]))
+        seqs.append(("folder-appears", [st({m: [L(1000), ("wild", "lib/*"), D(1005)]}), base, st({m: [L(1000), ("wild", "lib/*"), D(1005)]})]))
+        seqs.append(("two-wildcards", [st(dict(base.files, **{m: [("wild", "lib/*"), L(1000), ("wild", "sub/*")], f"{P}/sub/s.jmc": [D(1012)]})),
+                                       st(dict(base.files, **{m: [("wild", "lib/*"), L(1000), ("wild", "sub/*")], f"{P}/sub/s.jmc": [D(1012)],
+                                                              f"{P}/sub/t.jmc": [L(1013)], f"{P}/lib/u.jmc": [D(1014)]}))]))
+        seqs.append(("wildcard-in-imported-file",
+                     [st({m: [("import", "sub/c"), L(1000)], f"{P}/sub/c.jmc": [D(1001), ("wild", "deep/*"), L(1002)], f"{P}/sub/deep/e.jmc": [L(1003)]}),
+                      st({m: [("import", "sub/c"), L(1000)], f"{P}/sub/c.jmc": [D(1001), ("wild", "deep/*"), L(1002)], f"{P}/sub/deep/e.jmc": [L(1003)],
+                          f"{P}/sub/deep/f.jmc": [D(1004)], f"{P}/sub/deep/x/g.jmc": [L(1005, "say")]})]))
+        seqs.append(("same-state-again", [base, base, st(added), st(added)]))
+    n_rand = 40 if tier == "quick" else 400
+    bases = seq_bases(rng, n_rand) + [p for p in gen_random(rng, n_rand) if wild_dirs_of(p)][:n_rand // 2]
+    for b in bases:
+        steps = [b]
+        for _ in range(rng.randint(1, 3) if tier == "quick" else rng.randint(2, 4)):
+            nxt = None
+            for _try in range(6):
+                nxt = edit_project(rng, steps[-1], rng.choice(EDIT_KINDS))
+                if nxt is not None:
+                    break
+            if nxt is None:
+                break
+            steps.append(nxt)
+        if len(steps) > 1:
+            seqs.append(("random", steps))
+    return seqs
+
+
+def run_sequences(seqs, chunk=1):
+    """every sequence in ONE process of its own -> per sequence the list of results"""
+    jobs = [dict(seq=[p.job() for p in steps]) for _, steps in seqs]
+    chunks = [jobs[i:i + chunk] for i in range(0, len(jobs), chunk)]
+    with ThreadPoolExecutor(max_workers=NCPU) as ex:
+        res = list(ex.map(lambda c: run_py(RUNNER, c, timeout=900), chunks))
+    return [r["seq"] for rs in res for r in rs]
+
+
 # ------------------------------------------------------------------ observation of a real result
 
 ID_RE = re.compile(r"(?<!\d)(1\d{3})(?!\d)")
@@ -476,9 +693,10 @@ def listing_of(pr: Project, res: dict) -> dict:
     return out
 
 
-def evaluate(projects: list[Project]):
-    """Run every project and its flattened file on the real compiler.  Returns per project a dict."""
-    res = run_jobs([p.job() for p in projects])
+def evaluate(projects: list[Project], reals: list[dict] | None = None):
+    """Run every project and its flattened file on the real compiler.  Returns per project a dict.
+    reals: results already obtained for the projects (the steps of an edit sequence compiled in ONE process)."""
+    res = reals if reals is not None else run_jobs([p.job() for p in projects])
     rows = []
     flat_jobs, flat_idx = [], []
     for i, (pr, r) in enumerate(zip(projects, res)):
@@ -587,6 +805,57 @@ def main(tier: str) -> int:
     projects = gen_adversarial(rng) + gen_exhaustive(rng, tier) + gen_random(rng, 150 if tier == "quick" else 1500)
     rows = evaluate(projects)
 
+    # ---- 0. edit sequences (strengthening round 2): every state of a project folder compiled in turn in ONE process; each state is a row
+    #         like any other project (property on the real compiler, model prediction, Coq flatten), its real result being the in-process one
+    seqs = gen_sequences(rng, tier)
+    seq_res = run_sequences(seqs)
+    seq_rows = evaluate([p for _, steps in seqs for p in steps], [r for rs in seq_res for r in rs])
+    k = 0
+    for si, (tag, steps) in enumerate(seqs):
+        for st in range(len(steps)):
+            seq_rows[k]["seq"] = (si, st)
+            k += 1
+    # control: the same state compiled in a FRESH process (another temporary folder); same directory listing => same result
+    ctl_idx = [i for i, r in enumerate(seq_rows) if r["seq"][1] > 0]
+    ctl_res = run_jobs([seq_rows[i]["project"].job() for i in ctl_idx], chunk=1 if tier == "thorough" else 4)
+    n_ctl = n_ctl_listing_differs = 0
+    reported_seq = set()
+
+    def seq_violation(row, failure, kind):
+        """a failing state of an edit sequence: shortest history (one earlier state if possible), replayable"""
+        si, st = row["seq"]
+        tag, steps = seqs[si]
+        alone = evaluate([steps[st]])[0]
+        if property_failure(alone):
+            return None                                 # fails in a fresh process as well: an ordinary project failure (reported below)
+        hist = steps[:st]
+        for j in range(st - 1, -1, -1):
+            rr = run_sequences([(tag, [steps[j], steps[st]])])[0]
+            r2 = evaluate([steps[st]], [rr[1]])[0]
+            if property_failure(r2) or result_key(rr[1]) != result_key(alone["real"]):
+                hist = [steps[j]]
+                break
+        ck.violation(dict(kind=kind, edit=tag, history=[h.to_json() for h in hist], project=steps[st].to_json(),
+                          flattened=[item_text(i[2], i[1]) for i in row["spec"][1]] if row["spec"][0] == "ok" else row["spec"],
+                          failure=failure, fresh_process=summary(alone["real"]),
+                          what="compiled after the earlier states of the same folder in ONE process, the project no longer compiles to the "
+                               "flattened single file of the project as it is now (a fresh process does)"))
+        return True
+
+    for i, cr in zip(ctl_idx, ctl_res):
+        row = seq_rows[i]
+        n_ctl += 1
+        if cr["globs"] != row["real"]["globs"]:
+            n_ctl_listing_differs += 1                  # the OS lists the folder in another order: the results may differ legitimately
+            continue
+        if result_key(cr) != result_key(row["real"]) and not property_failure(row) and len(reported_seq) < 2:
+            key = ("ctl", seqs[row["seq"][0]][0])
+            if key not in reported_seq:
+                reported_seq.add(key)
+                seq_violation(row, dict(expected=summary(cr), actual=summary(row["real"]), what="result differs from the fresh-process result"),
+                              "import-result-depends-on-earlier-compiles")
+    rows = rows + seq_rows
+
     # ---- 1. the property on the real compiler
     n_fail = 0
     reported = set()
@@ -601,6 +870,13 @@ def main(tier: str) -> int:
         if kf:
             ck.known(kf["id"], kf["what"])
             continue
+        if row.get("seq") and row["seq"][1] > 0:
+            key = ("seq", seqs[row["seq"][0]][0], f["what"])
+            if key in reported_seq or len(reported_seq) >= 4:
+                continue
+            if seq_violation(row, f, "import-split-changes-output-after-edits"):
+                reported_seq.add(key)
+                continue
         key = (f["what"], str(f["actual"])[:60] if isinstance(f["actual"], str) else "files")
         if key in reported or len(reported) >= 4:
             continue
@@ -633,7 +909,9 @@ def main(tier: str) -> int:
     if silent:
         ck.violation(dict(kind="correspondence-differs",
                           theorem="C17_import_flatten no longer speaks about the code (Model/Import.v, mode Repaired, mispredicts the real parse)",
-                          cases=[dict(project=rows[i]["project"].to_json(), real_observation=rows[i]["obs"]) for i in silent[:3]],
+                          cases=[dict(project=rows[i]["project"].to_json(), real_observation=rows[i]["obs"],
+                                      **(dict(history=[h.to_json() for h in seqs[rows[i]["seq"][0]][1][:rows[i]["seq"][1]]]) if rows[i].get("seq") else {}))
+                                 for i in silent[:3]],
                           n_differing=len(silent)), no_input=True)
     if bad2:
         ck.violation(dict(kind="spec-differs", what="Coq `flatten` disagrees with the harness' flattening",
@@ -662,6 +940,11 @@ def main(tier: str) -> int:
         disagreements_checked=len(bad) + len(bad2), property_failures=n_fail,
         outcome_histogram=kinds, shape_histogram=shape, projects_with_import_of_main=cyc,
         main_spellings=[f"cwd={c} target={t}" for c, t in MAIN_SPELLINGS],
+        edit_sequences=dict(sequences=len(seqs), states=len(seq_rows), by_edit={t: sum(1 for tt, _ in seqs if tt == t) for t in sorted({tt for tt, _ in seqs})},
+                            states_after_an_edit=len(ctl_idx), fresh_process_controls=n_ctl, controls_with_other_directory_order=n_ctl_listing_differs,
+                            states_with_wildcard=sum(1 for r in seq_rows if wild_dirs_of(r["project"])),
+                            outcome_histogram={k2: sum(1 for r in seq_rows if r["obs"][0] + "/" + r["spec"][0] == k2)
+                                               for k2 in sorted({r["obs"][0] + "/" + r["spec"][0] for r in seq_rows})}),
     ))
     return ck.finish()
 
@@ -669,7 +952,17 @@ def main(tier: str) -> int:
 def replay(path: str) -> int:
     o = json.load(open(path))
     pr = Project.from_json(o["project"])
-    row = evaluate([pr])[0]
+    if o.get("history"):
+        hist = [Project.from_json(h) for h in o["history"]]
+        rr = run_sequences([("replay", hist + [pr])])[0]
+        row = evaluate([pr], [rr[-1]])[0]
+        alone = evaluate([pr])[0]
+        print("earlier states of the folder, compiled in the same process:", len(hist))
+        for h in hist:
+            print("  files:", sorted(h.files))
+        print("fresh-process result:", "same" if result_key(alone["real"]) == result_key(row["real"]) else json.dumps(summary(alone["real"]), indent=1))
+    else:
+        row = evaluate([pr])[0]
     f = property_failure(row)
     print("project:", json.dumps(pr.to_json(), indent=1))
     print("flattened:", row["spec"][0], [item_text(i[2], i[1]) for i in row["spec"][1]] if row["spec"][0] == "ok" else row["spec"][1])
